@@ -183,6 +183,10 @@ class ModelStateTransformer:
             return x
 
     @property
+    def state_converter(self) -> Optional[StateForModelConverter]:
+        return self._state_converter
+
+    @property
     def use_single_model(self) -> bool:
         return self._use_single_model
 
